@@ -171,7 +171,12 @@ class InfTaint:
         return tainted, stmts
 
     def _solve(self) -> None:
-        funcs = list(self.prog.functions.values())
+        # only modules that mention an infinity or the solver, and their (transitive) importers' callers, matter
+        seeds = {m.name for m in self.prog.modules.values() if "inf" in m.src or "linear_sum_assignment" in m.src}
+        funcs = [f for f in self.prog.functions.values() if f.module.name in seeds
+                 or any(imp.split(":")[0].rsplit(".", 1)[0] in seeds or imp in seeds or imp.rsplit(".", 1)[0] in seeds
+                        for imp in f.module.imports.values())]
+        self._calls_cache: Dict[str, List[ast.Call]] = {}
         changed = True
         rounds = 0
         while changed and rounds < 10:
@@ -219,11 +224,15 @@ class InfTaint:
                     changed = True
                 # sink params
                 sp: Dict[str, List[str]] = {}
+                if fi.qualname not in self._calls_cache:
+                    self._calls_cache[fi.qualname] = [n for n in walk_function(fi.node) if isinstance(n, ast.Call)]
+                all_calls = self._calls_cache[fi.qualname]
+                relevant = [c for c in all_calls if any(q == SINK or q in self.sink_params for q in self.callees(fi, c))]
                 for p in fi.params:
-                    if p in ("self", "cls"):
+                    if p in ("self", "cls") or not relevant:
                         continue
                     derived = astq.dep_closure(fi.node.body, {p})
-                    for c in [n for n in walk_function(fi.node) if isinstance(n, ast.Call)]:
+                    for c in relevant:
                         for q in self.callees(fi, c):
                             if q == SINK:
                                 a0 = astq.call_arg(c, 0, "cost_matrix")
